@@ -24,6 +24,7 @@ LEVEL = "exploration"
 TECHNIQUE = ("deterministic simulation: seeded histories of callback/errback/cancel/chain-to-inner/fire-inner operations on real "
              "Deferreds vs a reference state machine, compared after every operation")
 QUICK_RUNS = 60000
+TWIN_P = 0.08   # this share of the runs drives two independent instances of the scenario one after the other (detsim.runner._run_scenario)
 BATCH = 800
 COMPONENTS = {"real": ["twisted.internet.defer.Deferred (callback/errback/cancel/_startRunCallbacks/_runCallbacks)"],
               "stub": ["order of the caller's operations (tape)"]}
